@@ -95,7 +95,7 @@ def corpus(ctx, n_random, n_shaped, enum_widths, small_cap=None):
         keep = small[-800:]
         small = rng.sample(small[:-800], small_cap - 800) + keep
     cc = exprgen.enumerate_cc(2)
-    if small_cap:
+    if ctx.quick:
         # quick tier: every one- and two-flag form, a seeded sample of the three-flag forms
         cc = [e for e in cc if len(e.args) <= 2] + rng.sample([e for e in cc if len(e.args) == 3], 1200)
     else:
@@ -117,7 +117,7 @@ def envs_for(e, rng, exhaustive_bits=8, nsample=10):
 def run(ctx, which):
     """which: 'C01' (meaning, no raise) or 'C02' (fixed point, termination)"""
     q = ctx.quick
-    exprs, small = corpus(ctx, 250 if q else 9000, 350 if q else 6000, (1, 2, 3), small_cap=7000 if q else None)
+    exprs, small = corpus(ctx, 250 if q else 2500, 350 if q else 2500, (1, 2, 3), small_cap=7000 if q else 30000)
     rec = Recorder()
     items, meta = [], []
     sims = simplifiers()
@@ -149,7 +149,7 @@ def run(ctx, which):
         # every individual rewrite step, judged separately so that a rejection names the rule
         steps = list(rec.steps.items())
         ctx.rng.shuffle(steps)
-        for (before, after), rule in steps[:(4000 if q else 60000)]:
+        for (before, after), rule in steps[:(4000 if q else 20000)]:
             try:
                 ja, jb = X.to_json(before), X.to_json(after)
             except ValueError:
